@@ -1025,6 +1025,42 @@ Definition matcher_model (groups : text -> option (list (text * text))) (rem : o
   : option matchdict :=
   option_map (fun items => fold_left (matcher_step rem) items []) (groups path).
 
+(* ---- fifth round: Configurator.add_route under a route prefix (config/routes.py).
+   '{}/{}'.format(a, b) *)
+Definition fmt_slash (a b : text) : text := a ++ 47%N :: b.
+(* reference: route_prefix_context combines the prefix in force with the one of a nested
+   include (None and '' are "no prefix"; surrounding slashes are dropped) *)
+Definition nest_prefix_model (old new : option text) : option text :=
+  let o := match old with Some x => x | None => [] end in
+  let n := match new with Some x => x | None => [] end in
+  let r := strip_char 47%N (fmt_slash (rstrip_char 47%N o) (lstrip_char 47%N n)) in
+  if l_is_nil r then None else Some r.
+(* reference: the pattern add_route hands to the mapper: the prefix without trailing slashes,
+   '/', the declared pattern without LEADING slashes (its trailing slash is kept); the empty
+   pattern with inherit_slash is the prefix itself; no prefix: the pattern as declared *)
+Definition prefix_pattern_model (prefix : option text) (inherit : bool) (pattern : text) : text :=
+  match prefix with
+  | None => pattern
+  | Some pf =>
+      if l_is_nil pf then pattern
+      else if text_eqb pattern [] && inherit then pf
+      else rstrip_char 47%N pf ++ 47%N :: lstrip_char 47%N pattern
+  end.
+(* a declaration made inside nested includes with these route_prefix arguments (outermost first) *)
+Definition effective_decl (nestf : option text -> option text -> option text)
+  (prefixf : option text -> bool -> text -> text) (x : decl * list text * bool) : decl :=
+  let '(d, levels, inh) := x in
+  mkDecl (d_name d) (prefixf (fold_left (fun o p => nestf o (Some p)) levels None) inh (d_src d)) (d_static d) (d_preds d).
+Definition get_decl_x (v : val) : option (decl * list text * bool) :=
+  match v with
+  | VL [VT n; VT s; st; ps] =>
+      olet st := get_bool st in olet ps := get_list_of get_pred ps in Some (mkDecl n s st ps, [], false)
+  | VL [VT n; VT s; st; ps; lv; inh] =>
+      olet st := get_bool st in olet ps := get_list_of get_pred ps in
+      olet lv := get_texts lv in olet inh := get_bool inh in Some (mkDecl n s st ps, lv, inh)
+  | _ => None
+  end.
+
 Fixpoint connect_all_f (cf : mapper -> nat -> decl -> mapper * res unit) (m : mapper) (id : nat) (ds : list decl)
   : mapper * list (res unit) :=
   match ds with
@@ -1077,12 +1113,15 @@ Definition run_C01 (v : val) : val :=
 Definition run_C01_with
   (cf : (text -> res pat) -> mapper -> nat -> decl -> mapper * res unit)
   (callf : (pat -> text -> option matchdict) -> mapper -> text -> option text -> tracedout)
+  (nestf : option text -> option text -> option text) (prefixf : option text -> bool -> text -> text)
   (v : val) : val :=
   ret_or_bad (
     match v with
     | VL (o :: ds :: raw :: VT method :: VI mode :: rest) =>
         olet orc := get_oracle o in
-        olet ds := get_list_of get_decl ds in
+        olet dxs := get_list_of get_decl_x ds in
+        let ds := map (effective_decl nestf prefixf) dxs in
+        let ds_spec := map (effective_decl nest_prefix_model prefix_pattern_model) dxs in
         olet raw := get_opt get_text raw in
         olet steps := match rest with
                       | [] => Some []
@@ -1104,7 +1143,7 @@ Definition run_C01_with
           else if matcher_pure_ok
                then VL (map (fun s => put_outcome (fst (callf (match_pat_m orc) m (snd s) (fst s)))) steps)
                else VL [VT (T "drift")] in
-        Some (VL [model; put_spec (spec_request_m orc ds method raw); hist;
-                  VL (map put_spec (spec_hist (spec_parse_m orc) (spec_match_m orc) ds steps))])
+        Some (VL [model; put_spec (spec_request_m orc ds_spec method raw); hist;
+                  VL (map put_spec (spec_hist (spec_parse_m orc) (spec_match_m orc) ds_spec steps))])
     | _ => None
     end).
